@@ -304,6 +304,7 @@ func (c *vC07CountUDP) Read(p []byte) (int, error) {
 
 type vC07Dg struct {
 	kind  int // 0 message, 1 zeros, 2 garbage
+	rcode int
 	id    uint16
 	qs    []vC07Q
 	zeros int
@@ -321,7 +322,7 @@ func (d vC07Dg) coq() string {
 	for _, q := range d.qs {
 		qs = append(qs, q.coq())
 	}
-	return fmt.Sprintf("(DgMsg (mk_wmsg %d [%s]))", d.id, strings.Join(qs, ";"))
+	return fmt.Sprintf("(DgMsg (mk_wmsg %d %d [%s]))", d.id, d.rcode, strings.Join(qs, ";"))
 }
 
 func (d vC07Dg) String() string {
@@ -335,7 +336,7 @@ func (d vC07Dg) String() string {
 	for _, q := range d.qs {
 		qs = append(qs, q.String())
 	}
-	return fmt.Sprintf("msg{id=%d q=%v %s}", d.id, qs, d.tag)
+	return fmt.Sprintf("msg{id=%d rcode=%d q=%v %s}", d.id, d.rcode, qs, d.tag)
 }
 
 var vC07Garbage = func() []byte {
@@ -358,6 +359,7 @@ func (d vC07Dg) wire(idx int, reqID uint16) []byte {
 	m := new(dns.Msg)
 	m.Id = d.id
 	m.Response = true
+	m.Rcode = d.rcode
 	for _, q := range d.qs {
 		m.Question = append(m.Question, q.dns())
 	}
@@ -448,15 +450,27 @@ func vC07GenScript(r *rand.Rand, reqID uint16, rq *vC07Q) ([]vC07Dg, []string) {
 		default:
 			d = good()
 		}
+		vC07RandRcode(r, &d)
 		dgs = append(dgs, d)
 		tags = append(tags, d.tag)
 	}
 	if r.Intn(8) != 0 {
 		d := good()
+		vC07RandRcode(r, &d)
 		dgs = append(dgs, d)
 		tags = append(tags, d.tag)
 	}
 	return dgs, tags
+}
+
+// error replies are replies too: every scripted message gets a response code, mostly NOERROR,
+// otherwise one of the codes authorities really send (bare header, no sections)
+func vC07RandRcode(r *rand.Rand, d *vC07Dg) {
+	if d.kind != 0 || r.Intn(5) < 3 {
+		return
+	}
+	d.rcode = []int{dns.RcodeNameError, dns.RcodeNameError, dns.RcodeRefused, dns.RcodeServerFailure, dns.RcodeFormatError, dns.RcodeNotImplemented, dns.RcodeNotAuth}[r.Intn(7)]
+	d.tag += "-" + strings.ToLower(dns.RcodeToString[d.rcode])
 }
 
 // a long run of stray datagrams (8..40: late replies to timed-out queries, or an off-path
@@ -491,6 +505,7 @@ func vC07GenBurst(r *rand.Rand, reqID uint16, rq *vC07Q) ([]vC07Dg, []string) {
 			d.qs = []vC07Q{q}
 			d.tag = "right-id-" + k
 		}
+		vC07RandRcode(r, &d)
 		dgs = append(dgs, d)
 	}
 	tags := []string{fmt.Sprintf("%d strays", n)}
